@@ -41,7 +41,6 @@ CONSTANTS
 INVARIANT NoSharing
 INVARIANT Functional
 INVARIANT ActFunctional
-INVARIANT DistinctIdx
 CHECK_DEADLOCK FALSE
 """
 
